@@ -32,5 +32,5 @@ for id in "$@"; do
   RES="$RES $id=$rc"
 done
 git -C /repo worktree remove --force "$CW"; git -C /repo worktree prune
-git -C /verif checkout -- evidence 2>/dev/null   # evidence written while a seeded change was applied must not be kept
+git -C /verif checkout -- evidence 2>/dev/null || true
 echo "RESULT $NAME tests=$TESTS_WITH demo_with=$DEMO_WITH demo_without=$DEMO_WITHOUT checks:$RES"
